@@ -25,7 +25,7 @@ def one(name):
         for c in [pid] + RELATED.get(pid, []):
             if c not in claimed:
                 continue
-            env = dict(os.environ, PYVC_REPO=tmp, PYVC_OUT=f"{tmp}/out_{c}", PYVC_JOBS="4")
+            env = dict(os.environ, PYVC_REPO=tmp, PYVC_OUT=f"{tmp}/out_{c}", PYVC_JOBS="3")
             cp = subprocess.run([f"{V}/check", c], env=env, capture_output=True, text=True, cwd=V)
             lines = [l for l in cp.stdout.splitlines() if l.startswith(("VIOLATION", "UNDECIDED", "CHECKER-FAULT"))]
             obl = [l.strip()[:260] for l in cp.stdout.splitlines() if l.strip().startswith("obligation ")]
@@ -38,7 +38,7 @@ def one(name):
 
 names = [a for a in sys.argv[1:] if not a.startswith("--")] or sorted(os.listdir(f"{V}/seeded"))
 names = [n for n in names if os.path.isdir(f"{V}/seeded/{n}")]
-with ThreadPoolExecutor(4) as ex:
+with ThreadPoolExecutor(5) as ex:
     for name, res in ex.map(one, names):
         pid = name.split("-")[0]
         own = res.get(pid, {})
